@@ -194,12 +194,13 @@ func (r *Run) Execute() Outcome {
 		// collection that takes a write); an open that refuses the remains is fine.
 		probe := ReaderArgs{Dir: dir, Name: name, Mode: 0, NewWrites: 1, Colls: 1}
 		pj, _ := json.Marshal(probe)
-		if pout, perr := exec.Command(exe, "crashreader", string(pj)).Output(); perr == nil {
+		if pout, perr := exec.Command(exe, "crashreader", string(pj)).Output(); perr == nil || len(pout) > 0 {
+			// (a reader that dies after the open still prints what it had found out: that counts as "not whole")
 			var pr ReaderOut
 			lines := strings.Split(strings.TrimSpace(string(pout)), "\n")
-			if json.Unmarshal([]byte(lines[len(lines)-1]), &pr) == nil && pr.Err == "" {
+			if json.Unmarshal([]byte(lines[len(lines)-1]), &pr) == nil && pr.Err == "" && pr.OpenedAt != 0 {
 				out.OpenedAfterInterruptedCreation = true
-				if pr.UUID == "" || len(pr.NewCas) != 1 || len(pr.Colls) == 0 {
+				if pr.UUID == "" || len(pr.NewCas) != 1 || len(pr.Colls) == 0 || perr != nil {
 					out.Problems = append(out.Problems, fmt.Sprintf("half-created|the writer was killed while it was still creating the bucket; a later OpenBucket accepted the remains as an existing bucket, but it is not a whole one: UUID %q, collections %v, %d of 1 writes accepted", pr.UUID, pr.Colls, len(pr.NewCas)))
 				}
 			}
